@@ -186,6 +186,7 @@ func (w *world) migrate(retained uint64, plan migPlan) migResult {
 	}
 	w.rec("migrate", retained, fmt.Sprintf("cancel=%d crash-all=%v", plan.CancelAt, plan.CrashAll))
 	w.res.Hit("op:migrate")
+	w.bumpSpecFloor()
 	if w.proc != nil {
 		w.proc.stop()
 		w.proc = nil
@@ -193,8 +194,10 @@ func (w *world) migrate(retained uint64, plan migPlan) migResult {
 	var minAge time.Duration
 	mf := "-"
 	if w.cutoff > 0 {
-		minAge = time.Since(time.Unix(int64(w.cutoff), 0))
-		w.minAgeDur = minAge
+		if w.minAgeDur == 0 {
+			w.minAgeDur = time.Since(time.Unix(int64(w.cutoff), 0))
+		}
+		minAge = w.minAgeDur
 		mf = w.migMinAgeFloor()
 		w.clock(w.migCut)
 		// the model's own FindOldestBlockAtOrAfter(0, pivot, cut-off) against the harness' linear scan
@@ -457,8 +460,12 @@ func (w *world) finishMigration(retained uint64, mf string, unchangedSlot bool, 
 		w.migrated = true
 	}
 	w.openNode(true)
-	// the model's `migrate` step includes the start of the next process (restartMem): its sample is seeded with
-	// the cut-off of the migration; the real process seeds a moment later (clock-crossing is checked in startProc)
+	// the model's `migrate` step includes the start of the next process (restartMem) at the migration's cut-off;
+	// the real process seeds its sample a moment later: the model restarts once more at that cut-off
+	w.clock(w.procCutoff)
+	if o := w.ask("crash 1"); o != "ok" {
+		w.mismatch("restart", "after-migration", o, "ok")
+	}
 	w.sampleTie("after-migration")
 	w.quiescent = true
 	w.res.Hit("migrate-outcome:" + class)
